@@ -26,6 +26,10 @@ build_e1() {
     exit 2
   fi
 }
+build_racepass() {
+  # supplementary free-running pass for C12 (uninstrumented, Go race detector); optional
+  (cd mc && go build -race -o ../.work/racepass ./cmd/racepass) >.work/build-race.log 2>&1 || rm -f .work/racepass
+}
 needs_e1() {
   case "$1" in C11|C12|C15|C16) return 0 ;; esac
   return 1
@@ -37,6 +41,7 @@ case "$1" in
     if needs_e1 "$id"; then build_e1; exec .work/bclmc-e1 replay "$2"; fi
     exec .work/bclmc replay "$2" ;;
   *)
+    if [ "$1" = C12 ]; then build_racepass; fi
     if needs_e1 "$1"; then build_e1; exec .work/bclmc-e1 check "$1" "${2:-quick}"; fi
     exec .work/bclmc check "$1" "${2:-quick}" ;;
 esac
